@@ -204,8 +204,9 @@ func (wg *WeightedAuthorizationModelGraph) calculateEdgeWildcards(edge *Weighted
 	if len(nodeWildcards) == 0 {
 		return
 	}
-	// otherwise add the node wildcards
-	edge.wildcards = nodeWildcards
+	// otherwise add the node wildcards (a copy: the slice is appended to later on, and a shared backing
+	// array would let two edges or nodes overwrite each other's entries)
+	edge.wildcards = slices.Clone(nodeWildcards)
 }
 
 func (wg *WeightedAuthorizationModelGraph) addReferentialWildcardsToEdge(edge *WeightedAuthorizationModelEdge, referentialNodeID string) {
@@ -216,7 +217,7 @@ func (wg *WeightedAuthorizationModelGraph) addReferentialWildcardsToEdge(edge *W
 	}
 	// if the edge does not have any wildcards, we can add the referential node wildcards
 	if len(edge.wildcards) == 0 {
-		edge.wildcards = referentialNode.wildcards
+		edge.wildcards = slices.Clone(referentialNode.wildcards)
 		return
 	}
 	// otherwise add the referential node wildcards to the existing edge wildcards only if the wildcard does not exist in the slice
@@ -234,7 +235,7 @@ func (wg *WeightedAuthorizationModelGraph) addReferentialWildcardsToNode(nodeID 
 	node := wg.nodes[nodeID]
 	// if the node does not have any wildcards, we can add the referential node wildcards
 	if len(node.wildcards) == 0 {
-		node.wildcards = referentialNode.wildcards
+		node.wildcards = slices.Clone(referentialNode.wildcards)
 		return
 	}
 	// otherwise add the referential node wildcards to the existing node wildcards only if the wildcard does not exist in the slice
@@ -255,7 +256,7 @@ func (wg *WeightedAuthorizationModelGraph) addEdgeWildcardsToNode(nodeID string,
 
 	// if the node does not have any wildcards, we can add the edge wildcards
 	if len(node.wildcards) == 0 {
-		node.wildcards = edge.wildcards
+		node.wildcards = slices.Clone(edge.wildcards)
 		return
 	}
 	// otherwise add the edge wildcards to the existing node wildcards only if the wildcard does not exist in the slice
